@@ -10,7 +10,7 @@ TECH = "static analysis over rustc MIR (custom rustc_private driver + python rul
 CLAIMS = {
     "C05": ("provenance of every allocation size in the reading set (CONST|LEN|LIMIT|guard value, parameters checked at callers), guard polarity on the MIR comparison operator, declared-count provenance, overflow asserts on input-derived operands, closed panic-site inventory",
             "static analysis: backward provenance slicing + call-graph closure + panic-site inventory over MIR"),
-    "C06": ("dominance query: no Ok constructed on the Err edge of any read result in the reading set (both decoders, readers); for each of the 31 schema shapes the decoder builds only the Value variant validation accepts for it; enum and union indices are range-checked before a value is built",
+    "C06": ("the container block buffer holds exactly the declared block (fill_buf resizes on every path before read_exact of the whole buffer); dominance query: no Ok constructed on the Err edge of any read result in the reading set (both decoders, readers); for each of the 31 schema shapes the decoder builds only the Value variant validation accepts for it; enum and union indices are range-checked before a value is built",
             "static analysis: dominance/edge-region query + variant-partitioned path summaries over MIR"),
     "C13": ("no partial Write::write on caller sinks, no dropped byte counts, no discarded sink results, no explicit panic in Writer::drop - on every function of the crate",
             "static analysis: resolved-callee query + taint over MIR"),
@@ -31,13 +31,13 @@ CLAIMS["C20"] = ("parse_list's output is filled in a loop over input_order (no m
                  "static analysis: loop/def-use shape + Option-edge regions + insert discipline + hash-iteration inventory over MIR")
 CLAIMS["C11"] = ("gate rules on every acceptance path of the parser (Name, namespace, field name, field default, enum symbols / duplicates / default, duplicate record fields, union branch rules, fixed size, unresolved references: the construction is dominated by the Ok edge of its check and the failure edge is Err-only), who-may-construct sets for Name and UnionSchema, imported definition-table insert discipline (unique full names), closed panic-site inventory over the parse and post-parse call-graph slice",
                  "static analysis: dominance gates + who-may-construct + panic-site inventory over MIR")
-CLAIMS["C02"] = ("per-shape wire-token sequences of decode_internal and encode_internal (zig-zag class, raw lengths, byte order of float/u32/big-integer conversions, uuid text/binary form, block headers, recursion, loop depth; one sequence per success path) equal the hand-transcribed specification table for all 31 schema shapes; both block-header readers read the byte size exactly on the negative-count edge, negate with a checked operation and end on 0; the buffered and direct serde block writers emit negative count + byte size + payload and the 0 terminator; big-decimal framing and the duration byte layout mirror each other",
+CLAIMS["C02"] = ("per-shape wire-token sequences of decode_internal and encode_internal (zig-zag class, raw lengths, byte order of float/u32/big-integer conversions, uuid text/binary form, block headers, recursion, loop depth; one sequence per success path) equal the hand-transcribed specification table for all 31 schema shapes; both block-header readers read the byte size exactly on the negative-count edge, negate with a checked operation and end on 0; the buffered and direct serde block writers emit negative count + byte size + payload and the 0 terminator; big-decimal framing and the duration byte layout mirror each other; serde block writer flushes a block only on an item boundary (no write_block reachable before the item is counted); serde UnionSerializer writes the index of a branch kind only together with that kind's wire form (path-sensitive tag propagation, 12 pairings)",
                  "static analysis: variant-partitioned path summaries over MIR reduced to a token alphabet of resolved callees, compared with a specification table")
-CLAIMS["C01"] = ("encoder/decoder agreement per schema shape: stream tokens (zig-zag class, raw moves and static lengths, recursion, loop depth) and conversion tokens (byte order, text/binary form) of encode_internal(V(S),S) vs decode_internal(S) on every success path, for all 31 shapes; totality of both; no read-ahead adapter on a caller-supplied reader; validation borrows the value immutably and Value is Freeze",
+CLAIMS["C01"] = ("encoder/decoder agreement per schema shape: stream tokens (zig-zag class, raw moves and static lengths, recursion, loop depth) and conversion tokens (byte order, text/binary form) of encode_internal(V(S),S) vs decode_internal(S) on every success path, for all 31 shapes; totality of both; no read-ahead adapter on a caller-supplied reader; validation borrows the value immutably and Value is Freeze; a failed trial encoding into a reused scratch buffer is cleared on the failure edge before the buffer is used again",
                  "static analysis: variant-partitioned path summaries of encoder vs decoder over MIR, adapter lint, compiler type facts")
-CLAIMS["C07"] = ("for every (Value variant, schema shape) pair with an accepting path in validate_internal (98 today) the encoder has a success path whose stream tokens are the decoder's for that shape (or a listed, re-checked special form); validate dominates encode and the first sink write in every validating writer and the reject edge reaches neither; the encoder bounds enum indices by the schema",
+CLAIMS["C07"] = ("for every (Value variant, schema shape) pair with an accepting path in validate_internal (98 today) the encoder has a success path whose stream tokens are the decoder's for that shape (or a listed, re-checked special form); validate dominates encode and the first sink write in every validating writer and the reject edge reaches neither; the encoder bounds enum indices by the schema; failed trial encodings leave no bytes; reusable writer buffers are rolled back on every exit (imported C03.R1, C18.R3 instances)",
                  "static analysis: acceptance relation x encoder/decoder wire tables (variant-partitioned path summaries) + dominance rules over MIR")
-CLAIMS["C08"] = ("the resolver's acceptance table (per reader schema shape, which writer-side Value variants Value::resolve_internal can turn into it: 600+ cells) equals the specification's promotion table - every listed promotion has a success path and nothing else resolves; every reader shape dispatches to a resolver; record resolution looks the value up by reader name, then reader aliases, then default, else error, in reader field order; enum resolution uses the reader's symbols and the reader enum's default",
+CLAIMS["C08"] = ("the resolver's acceptance table (per reader schema shape, which writer-side Value variants Value::resolve_internal can turn into it: 600+ cells) equals the specification's promotion table - every listed promotion has a success path and nothing else resolves; every reader shape dispatches to a resolver; record resolution looks the value up by reader name, then reader aliases, then default, else error, in reader field order; enum resolution uses the reader's symbols and the reader enum's default; record resolution consults the default only after the alias lookup (cut-reachability with Option propagation); the container reader's skip-resolution shortcut rests on a structural equality that answers false for all 849 pairs of different shapes and guards every zip with a length comparison",
                  "static analysis: variant-partitioned path summaries of the resolver over MIR vs a specification table + call/def-use shape rules")
 CLAIMS["C09"] = ("the compatibility checker's verdict table over all schema shape pairs (which of 890 pairs answer Full on every path) cross-checked with the resolver's acceptance table and the decoder's value table: a Full verdict requires an error-free resolver cell; lattice (Full only from Full & Full); mutual_read evaluates both directions unconditionally; the specification's safe steps (numeric promotions, string/bytes, self-compatibility of unnamed shapes, defaulted reader fields, enum defaults, reader name then alias against writer names) are accepted; memo written only from the inner result keyed by both schemas",
                  "static analysis: variant-partitioned path summaries of checker x resolver x decoder over MIR + shape rules")
